@@ -44,3 +44,20 @@ class PickyGaussian(GaussianUnivariate):
         if np.mean(X) > 500:
             raise RuntimeError('PickyGaussian refuses this column')
         GaussianUnivariate._fit(self, X)
+
+
+class ShiftStub(StubBase):
+    """cdf = true cdf shifted by SHIFT (up: the largest deviation is at the left limits of the empirical cdf; down: at the right
+    limits) - candidates whose Kolmogorov-Smirnov distances differ by less than 1/n and sit on opposite sides."""
+    SHIFT = 0.0
+
+    def _fit(self, X):
+        self._params = {'loc': float(np.mean(X)), 'scale': float(np.std(X))}
+
+    def cumulative_distribution(self, X):
+        self.check_fit()
+        return np.clip(norm.cdf(X, **self._params) + self.SHIFT, 0.0, 1.0)
+
+
+def shift_class(tag, shift):
+    return type('Shift_%s' % tag, (ShiftStub,), {'SHIFT': shift, '__module__': __name__})
